@@ -95,6 +95,22 @@ def family(name: str, tier: str):
         yield ["struct", [["varr", ["varr", ["varr", ["uint", 8, "s"], 2**24 + 1], 2**24 + 1], 2**24 + 1], ["bool"]]]
     elif name == "medium":
         yield from T.medium(tier)
+        # more distinct capacities in ONE process than any bounded per-capacity cache holds, then the first ones again
+        u8 = ["uint", 8, "s"]
+        caps = list(range(1, 40)) + list(range(250, 330)) + list(range(65530, 65545)) + list(range(1, 40)) + list(range(250, 262)) + [2**32 - 1, 2**32, 3, 300, 70000]
+        yield ["seq", [["struct", [["varr", u8, c], ["bool"]]] for c in caps]]
+        yield ["seq", [["struct", [["farr", ["uint", 3, "s"], c], ["varr", ["bool"], c]]] for c in list(range(1, 100)) + list(range(1, 12))]]
+        yield ["seq", [["struct", [["uint", w, "s"], ["int", max(2, w)], ["void", w]]] for w in list(range(1, 65)) * 2]]
+        # composites that differ only DEEP inside (many fields / many nesting levels away from the root), side by side in one container
+        for x in (u8, ["varr", u8, 1], ["uint", 3, "s"]):
+            for n in (8, 9, 12, 17):
+                a, b = ["struct", [["uint", 8, "s"]] + [x] * n], ["struct", [["uint", 40, "s"]] + [x] * n]
+                yield ["seq", [["union", [a, b]], ["union", [b, a]], ["struct", [a, b]], ["struct", [["varr", a, 2], ["varr", b, 2]]]]]
+        for depth in (4, 5, 6, 8):
+            a, b = ["struct", [["uint", 8, "s"]]], ["struct", [["uint", 40, "s"]]]
+            for _ in range(depth):
+                a, b = ["struct", [["bool"], a]], ["struct", [["bool"], b]]
+            yield ["seq", [["union", [a, b]], ["struct", [b, a]]]]
     elif name == "colliders":
         # sequences of types, built one after the other in ONE process, whose elements / variants / fields differ as sets but agree
         # in min, max and residues mod 32
